@@ -31,6 +31,7 @@ def showOp : FsOp → String
   | .close p => "c:" ++ pathCh p
   | .remove p => "rm:" ++ pathCh p
   | .rename a b => "rn:" ++ pathCh a ++ ":" ++ pathCh b
+  | .truncate p n => s!"tr:{pathCh p}:{n}"
 
 def showOps (ops : List FsOp) : String :=
   if ops.isEmpty then "-" else ",".intercalate (ops.map showOp)
@@ -112,7 +113,7 @@ def modelEntry (st : St) (k cut : Nat) (kind : String) : String :=
   let fs := FS.crashAt {} st.ops k cut
   if kind == "r" then s!"{k}.{cut}.r={showRec fs (recover st.rj fs)}"
   else
-    let r0 := Snap.openOn st.rj st.mc fs.main
+    let r0 := Snap.openOn st.rj st.mc fs
     let fs1 := fs.applyAll r0.2
     let r1 := Snapshot.step Order.id r0.1 (.join [(zzName, zzAddr)] 1)
     let fs2 := fs1.applyAll r1.2
@@ -159,13 +160,12 @@ def judgeEntry (st : St) (all : List Entry) (e : Entry) : Option (String × Stri
     | none => if e.k ≥ n then (st.lb, st.specs.length - 1) else (0, st.specs.length - 1)
   let wrote := (st.implKinds.take e.k).any (·.startsWith "w:")
   if e.kind == "r" then
-    if !e.main && wrote then
+    let allowed := ((st.specs.drop lb).take (ub + 1 - lb)).map recKey
+    if allowed.contains (entKey e) then none
+    else if !e.main && wrote then
       some ("crash-between-remove-and-rename",
-        s!"crash before operation {e.k}: the snapshot file does not exist although data had been written; the restart recovers [{entKey e}]")
-    else
-      let allowed := ((st.specs.drop lb).take (ub + 1 - lb)).map recKey
-      if allowed.contains (entKey e) then none
-      else some ("crash-loses-written-state",
+        s!"crash before operation {e.k}: the snapshot file does not exist although data had been written; the restart recovers [{entKey e}], none of {allowed}")
+    else some ("crash-loses-written-state",
         s!"crash before operation {e.k} (cut {e.cut}): the restart recovers [{entKey e}], which is none of the states between the last completely written one and the current one {allowed}")
   else
     match all.find? (fun r => r.kind == "r" && r.k == e.k && r.cut == e.cut) with
